@@ -5,6 +5,6 @@ CONSTANTS
   MaxLen = 5
   PairLen = 3
   GlobPatLen = 4
-INVARIANTS NoEmptyComponents CanonIdempotent SlashInsensitive FsTrailingSlash AbsIsRootPlusRel ChildParentInverse RootIffEmpty HookThree HookStarWholeComponentOnly GlobOnlyDirs GlobComplete
+INVARIANTS NoEmptyComponents CanonIdempotent SlashInsensitive FsTrailingSlash AbsIsRootPlusRel ChildParentInverse RootIffEmpty ChildIsConcat HookThree HookStarWholeComponentOnly GlobOnlyDirs GlobComplete
 POSTCONDITION DumpCases
 CHECK_DEADLOCK FALSE
